@@ -1340,6 +1340,169 @@ fn reuse(args: &[String]) {
     println!("{} cycles, {} events, {} connects not ok", n, events.len(), fails);
 }
 
+/// Sequence-number wrap: the connector host's ISN counter (0x0100_0000 + k * 0x1_0000, one
+/// per connect) is burnt with cancelled connects whose SYNs the wire discards unrecorded,
+/// until the next connections start within 64 KiB of 2^32; then `conns` connections each move
+/// `bytes` bytes connector -> acceptor (and a few back) over a lossless, undelayed wire and
+/// close. PropSpec-level events only, one `reset` (kernel kept) per connection.
+fn wrap(args: &[String]) {
+    let cfg = Cfg::from_args(args);
+    let out = arg(args, "out").expect("out=");
+    let conns = arg_u64(args, "conns", 3) as usize;
+    let bytes = arg_u64(args, "bytes", 66_000) as usize;
+    let mut events: Vec<Value> = Vec::new();
+    let r = catch(|| {
+        let mut w = World::new(&cfg);
+        let light = |mut e: Value| {
+            let m = e.as_object_mut().unwrap();
+            m.remove("dump");
+            m.remove("ages");
+            if let Some(c) = m.get_mut("c") {
+                *c = json!(1);
+            }
+            e
+        };
+        // ISN of connect number k (0-based) is 0x0100_0000 + k * 0x1_0000: the last one below
+        // 2^32 is k = 0xFEFF; start one connection earlier
+        let burn = 0xFEFFusize - 1;
+        let mut junk = Vec::new();
+        for i in 0..burn {
+            set_current(w.h1);
+            let mut f: ConnFut = Box::pin(TcpStream::connect(SocketAddr::new(IP2, LPORT)));
+            let _ = f.as_mut().poll(&mut cx());
+            drop(f);
+            w.clients.push(Client::Gone);
+            if i % 512 == 0 {
+                junk.clear();
+                w.guard.egress_all(&mut junk); // the wire discards these SYNs
+            }
+        }
+        junk.clear();
+        w.guard.egress_all(&mut junk);
+        let mut listened = false;
+        for _ in 0..conns {
+            events.push(json!({"ev": "reset", "keep_kernel": true}));
+            let base = w.clients.len();
+            PORT_BASE.with(|b| b.set((base % 16384) as u16));
+            w.written.clear();
+            if !listened {
+                events.push(light(w.listen()));
+                listened = true;
+            } else {
+                events.push(json!({"ev": "listen", "port": MODEL_LPORT, "obs": w.obs()}));
+            }
+            events.push(light(w.connect()));
+            let mut eps: Vec<(i64, String)> = Vec::new();
+            let pump = |w: &mut World, events: &mut Vec<Value>, eps: &mut Vec<(i64, String)>| {
+                events.push(light(w.egress()));
+                for e in w.poll_connects() {
+                    if e["res"] == "ok" {
+                        eps.push((e["lp"].as_i64().unwrap(), "c".into()));
+                    }
+                    events.push(light(e));
+                }
+                while !w.wire.is_empty() {
+                    let e = w.deliver(1).unwrap();
+                    events.push(light(e));
+                    for e in w.poll_connects() {
+                        if e["res"] == "ok" {
+                            eps.push((e["lp"].as_i64().unwrap(), "c".into()));
+                        }
+                        events.push(light(e));
+                    }
+                }
+            };
+            for _ in 0..6 {
+                pump(&mut w, &mut events, &mut eps);
+                if let Some(e) = w.accept() {
+                    eps.push((e["pp"].as_i64().unwrap(), "s".into()));
+                    events.push(light(e));
+                }
+                if eps.len() == 2 {
+                    break;
+                }
+            }
+            if eps.len() < 2 {
+                continue;
+            }
+            let p = eps[0].0;
+            let mut sent = 0usize;
+            let mut rounds = 0;
+            let mut failed = false;
+            while sent < bytes && rounds < 400 && !failed {
+                rounds += 1;
+                let n = (bytes - sent).min(cfg.scap);
+                let data = w.next_bytes(p, "c", n);
+                if let Some(e) = w.write(p, "c", &data) {
+                    sent += e["n"].as_u64().unwrap_or(0) as usize;
+                    let res = e["res"].as_str().unwrap_or("").to_string();
+                    events.push(light(e));
+                    if res != "ok" && res != "wouldblock" {
+                        failed = true;
+                    }
+                }
+                if rounds % 8 == 1 {
+                    let data = w.next_bytes(p, "s", 3);
+                    if let Some(e) = w.write(p, "s", &data) {
+                        events.push(light(e));
+                    }
+                }
+                for _ in 0..2 {
+                    pump(&mut w, &mut events, &mut eps);
+                    for side in ["s", "c"] {
+                        if let Some(e) = w.read(p, side, cfg.rcap) {
+                            events.push(light(e));
+                        }
+                    }
+                }
+            }
+            for side in ["c", "s"] {
+                if let Some(e) = w.shutdown(p, side) {
+                    events.push(light(e));
+                }
+            }
+            let quiet_target = (cfg.retxt * (cfg.retxmax + 1) + 2) as usize;
+            let mut quiet = 0;
+            let mut guard = 0;
+            while quiet < quiet_target && guard < 200 {
+                guard += 1;
+                let before = events.len();
+                pump(&mut w, &mut events, &mut eps);
+                let e = &events[before];
+                quiet = if e["pk"].as_array().map(|a| a.is_empty()).unwrap_or(false) { quiet + 1 } else { 0 };
+            }
+            for side in ["s", "c"] {
+                for _ in 0..40 {
+                    match w.read(p, side, cfg.rcap) {
+                        Some(e) => {
+                            let res = e["res"].as_str().unwrap_or("").to_string();
+                            events.push(light(e));
+                            if res != "data" {
+                                break;
+                            }
+                        }
+                        None => break,
+                    }
+                }
+            }
+            for side in ["c", "s"] {
+                if let Some(e) = w.close(p, side) {
+                    events.push(light(e));
+                }
+            }
+            for _ in 0..3 {
+                pump(&mut w, &mut events, &mut eps);
+            }
+        }
+        w.teardown();
+    });
+    if let Err(m) = r {
+        events.push(json!({"ev": "panic", "message": m}));
+    }
+    write_ndjson(&out, &events);
+    println!("{} connections across the sequence wrap, {} events", conns, events.len());
+}
+
 fn main() {
     let args: Vec<String> = std::env::args().skip(1).collect();
     match args.first().map(|s| s.as_str()) {
@@ -1347,6 +1510,7 @@ fn main() {
         Some("labels") => run_labels(&args),
         Some("random") => random(&args),
         Some("reuse") => reuse(&args),
+        Some("wrap") => wrap(&args),
         _ => {
             eprintln!("usage: ktcp replay|labels|random|reuse key=value ...");
             std::process::exit(2);
